@@ -14,6 +14,7 @@ import (
 func main() {
 	var (
 		worker  = flag.Bool("worker", false, "worker mode")
+		racew   = flag.Bool("raceworker", false, "stage-B worker mode (uninstrumented -race build)")
 		prop    = flag.String("prop", "", "property id")
 		tier    = flag.String("tier", "quick", "quick|thorough")
 		seed    = flag.Uint64("seed", 1, "VERIF_SEED")
@@ -48,6 +49,8 @@ func main() {
 		os.Exit(sim.Replay(*replay, *known))
 	case *hashes > 0:
 		sim.DumpHashes(o, *hashes)
+	case *racew:
+		sim.RaceWorker(o, *from, *stride)
 	case *worker:
 		sim.Worker(o, *from, *stride, false)
 	default:
